@@ -9,6 +9,7 @@ package c32
 import (
 	"encoding/json"
 	"fmt"
+	"math/rand"
 	"path/filepath"
 	"strings"
 
@@ -33,13 +34,40 @@ type run struct {
 	defs   coqDefs
 	st     string // name of the current store definition
 	cases  []pendingCase
-	probes bool
+	opIdx  int // operations performed so far (the generator is deterministic in the seed)
+	stopAt int // replay by regeneration: stop after this many operations (0 = no limit)
+}
+
+// regen names a case by position in the deterministic generation (used for correspondence
+// cases, whose full history would be large); oracle failures carry the full history instead.
+type regen struct {
+	Seed int64  `json:"seed"`
+	Tier string `json:"tier"`
+	Upto int    `json:"upto"`
+}
+
+type stopSignal struct{}
+
+func (r *run) tick() {
+	if r.stopAt > 0 && r.opIdx >= r.stopAt {
+		panic(stopSignal{})
+	}
+	r.opIdx++
+}
+
+func (r *run) caseDesc(op string, sp hdrSpec) scenario {
+	return scenario{Regen: &regen{Seed: r.c.Seed, Tier: r.c.Tier, Upto: r.opIdx}, Op: op, Header: sp}
+}
+
+func (r *run) full(op string, sp hdrSpec) scenario {
+	return scenario{History: append([]step{}, r.e.history...), Op: op, Header: sp}
 }
 
 // scenario is the replayable failing input: the state-changing operations that led to the store,
 // then the operation judged.
 type scenario struct {
-	History []step  `json:"history"`
+	Regen   *regen  `json:"regenerate,omitempty"`
+	History []step  `json:"history,omitempty"`
 	Op      string  `json:"op"`
 	Header  hdrSpec `json:"header"`
 }
@@ -106,6 +134,7 @@ func (r *run) doAddBlock(sp hdrSpec, tag string) (accepted bool) { return r.doVe
 
 func (r *run) doVerifyVia(sp hdrSpec, tag string, via string) (accepted bool) {
 	c, e := r.c, r.e
+	r.tick()
 	h, m := e.build(&sp)
 	var err error
 	var panicked bool
@@ -143,8 +172,8 @@ func (r *run) doVerifyVia(sp hdrSpec, tag string, via string) (accepted bool) {
 	}
 	before := r.st
 	after := e.observePeers()
-	sc := scenario{History: append([]step{}, e.history...), Op: via, Header: sp}
-	r.emit(fmt.Sprintf("(CVerify %s %s %s %s)", before, coqHeader(m), code, coqPeers(after)), sc)
+	sc := r.full(via, sp)
+	r.emit(fmt.Sprintf("(CVerify %s %s %s %s)", before, coqHeader(m), code, coqPeers(after)), r.caseDesc(via, sp))
 	r.classCase(before, &sp, m)
 	r.oracle(&sp, h, m, err == nil && !panicked, sc)
 	switch code {
@@ -162,6 +191,7 @@ func (r *run) doVerifyVia(sp hdrSpec, tag string, via string) (accepted bool) {
 // doAdd runs AddHeaders([h]) and, when accepted, extends the shadow chain.
 func (r *run) doAdd(sp hdrSpec, tag string) (accepted bool) {
 	c, e := r.c, r.e
+	r.tick()
 	h, m := e.build(&sp)
 	var err error
 	panicked, pmsg := hx.Recover(func() { err = e.store.AddHeaders([]*types.Header{h}) })
@@ -179,8 +209,11 @@ func (r *run) doAdd(sp hdrSpec, tag string) (accepted bool) {
 	if got, gerr := e.store.GetHeaderByHeight(sp.Height); gerr == nil && got != nil && got.Hash() == h.Hash() {
 		indexed = true
 	}
-	sc := scenario{History: append([]step{}, e.history...), Op: "add", Header: sp}
-	r.emit(fmt.Sprintf("(CAdd %s %s %s %d %s %s)", before, coqHeader(m), code, tip, coqPeers(after), hx.CoqBool(indexed)), sc)
+	sc := r.full("add", sp)
+	r.emit(fmt.Sprintf("(CAdd %s %s %s %d %s %s)", before, coqHeader(m), code, tip, coqPeers(after), hx.CoqBool(indexed)), r.caseDesc("add", sp))
+	if strings.HasPrefix(tag, "witness") {
+		c.Sample(map[string]interface{}{"witness": tag, "scenario": sc, "AddHeaders": code, "current_header_height": tip})
+	}
 	r.classCase(before, &sp, m)
 	ok := err == nil && !panicked
 	r.oracle(&sp, h, m, ok, sc)
@@ -205,7 +238,7 @@ func (r *run) classCase(st string, sp *hdrSpec, m *mHeader) {
 	cl := r.e.classify(sp)
 	g, ok := r.e.govHeight(sp.Height)
 	r.emit(fmt.Sprintf("(CClass %s %s %s %s %s %s %s)", st, coqHeader(m), hx.CoqBool(cl.stale), hx.CoqBool(cl.threshold),
-		hx.CoqBool(cl.dup), hx.CoqBool(cl.overwritten), coqOptN(ok, g)), map[string]interface{}{"classify": sp})
+		hx.CoqBool(cl.dup), hx.CoqBool(cl.overwritten), coqOptN(ok, g)), r.caseDesc("classify", *sp))
 }
 
 func Run(c *hx.Ctx) {
@@ -217,11 +250,25 @@ func Run(c *hx.Ctx) {
 		}
 	}()
 	var sc scenario
-	if c.ReplayInput(&sc) {
+	if c.ReplayInput(&sc) && sc.Regen == nil && sc.Op != "" {
 		r.replay(sc)
 		r.flush()
 		return
 	}
+	if sc.Regen != nil {
+		c.Rng = rand.New(rand.NewSource(sc.Regen.Seed))
+		c.Tier = sc.Regen.Tier
+		r.stopAt = sc.Regen.Upto
+		c.Note(fmt.Sprintf("replay by regeneration: seed %d, tier %s, first %d operations", sc.Regen.Seed, sc.Regen.Tier, sc.Regen.Upto))
+	}
+	defer r.flush()
+	defer func() {
+		if x := recover(); x != nil {
+			if _, ok := x.(stopSignal); !ok {
+				panic(x)
+			}
+		}
+	}()
 	for _, raw := range c.CorpusInputs() {
 		var s2 scenario
 		if json.Unmarshal(raw, &s2) == nil && s2.Op != "" {
@@ -230,11 +277,15 @@ func Run(c *hx.Ctx) {
 	}
 	r.fresh("overwrite")
 	r.witnessOverwrite()
-	r.fresh("main")
-	r.witnesses()
-	r.randomEpochs(c.N(42, 400), c.N(16, 24))
-	r.vmsCases(c.N(300, 3000))
-	r.flush()
+	// one chain in the quick tier, several independent ones (fresh ledger, fresh keys) in the thorough tier
+	for chain := 0; chain < c.N(1, 8); chain++ {
+		r.fresh("main")
+		if chain == 0 {
+			r.witnesses()
+		}
+		r.randomEpochs(c.N(36, 40), c.N(14, 20))
+	}
+	r.vmsCases(c.N(240, 2500))
 }
 
 func (r *run) fresh(name string) {
